@@ -73,11 +73,42 @@ func writeLocals(path string, m map[string][]localVar) {
 	os.WriteFile(path, append(data, '\n'), 0o644)
 }
 
-// renamedLocals: recorded name -> current name, for the variables of fn that
-// kept position and type but changed name.
+// namedParams: the parameters of fn that orderedLocals lists (named ones), in order.
+func namedParams(fn *ssa.Function) []*ssa.Parameter {
+	var out []*ssa.Parameter
+	for _, p := range fn.Params {
+		if v, ok := p.Object().(*types.Var); ok && v != nil && v.Name() != "" && v.Name() != "_" {
+			out = append(out, p)
+		}
+	}
+	return out
+}
+
+// recordedParamNames: for each parameter of fn the name it had when the
+// contracts were written ("" when unknown). Parameters keep their position
+// whatever else changes in the body.
+func recordedParamNames(recorded []localVar, fn *ssa.Function) map[*ssa.Parameter]string {
+	out := map[*ssa.Parameter]string{}
+	np := namedParams(fn)
+	if len(recorded) < len(np) {
+		return out
+	}
+	qual := func(p *types.Package) string { return p.Name() }
+	for i, p := range np {
+		if recorded[i].Type == types.TypeString(p.Type(), qual) {
+			out[p] = recorded[i].Name
+		}
+	}
+	return out
+}
+
+// renamedLocals: recorded name -> current name. Parameters are matched by
+// position. Locals are aligned by a longest common subsequence over their
+// types that prefers equal names, so that introducing or removing a temporary
+// does not hide a rename next to it.
 func renamedLocals(recorded []localVar, fn *ssa.Function) map[string]string {
 	cur := orderedLocals(fn)
-	if len(recorded) == 0 || len(recorded) != len(cur) {
+	if len(recorded) == 0 {
 		return nil
 	}
 	known := map[string]bool{}
@@ -89,10 +120,65 @@ func renamedLocals(recorded []localVar, fn *ssa.Function) map[string]string {
 		has[c.Name] = true
 	}
 	out := map[string]string{}
-	for i, r := range recorded {
-		c := cur[i]
-		if r.Name != c.Name && r.Type == c.Type && !has[r.Name] && !known[c.Name] {
+	np := len(namedParams(fn))
+	if np > len(recorded) || np > len(cur) {
+		return nil
+	}
+	for i := 0; i < np; i++ {
+		r, c := recorded[i], cur[i]
+		if r.Name != c.Name && r.Type == c.Type && !has[r.Name] {
 			out[r.Name] = c.Name
+		}
+	}
+	rl, cl := recorded[np:], cur[np:]
+	n, m := len(rl), len(cl)
+	if n == 0 || m == 0 || n*m > 40000 {
+		return out
+	}
+	// score[i][j]: best alignment of rl[i:] with cl[j:]; a same-name pair scores 3, a same-type pair 2
+	score := make([][]int, n+1)
+	for i := range score {
+		score[i] = make([]int, m+1)
+	}
+	pair := func(i, j int) int {
+		if rl[i].Type != cl[j].Type {
+			return -1
+		}
+		if rl[i].Name == cl[j].Name {
+			return 3
+		}
+		if has[rl[i].Name] || known[cl[j].Name] {
+			return -1 // the old name still exists / the new name is an old one: not a rename
+		}
+		return 2
+	}
+	for i := n - 1; i >= 0; i-- {
+		for j := m - 1; j >= 0; j-- {
+			best := score[i+1][j]
+			if score[i][j+1] > best {
+				best = score[i][j+1]
+			}
+			if p := pair(i, j); p > 0 && score[i+1][j+1]+p > best {
+				best = score[i+1][j+1] + p
+			}
+			score[i][j] = best
+		}
+	}
+	for i, j := 0, 0; i < n && j < m; {
+		p := pair(i, j)
+		switch {
+		case p > 0 && score[i][j] == score[i+1][j+1]+p:
+			if p == 2 {
+				if _, dup := out[rl[i].Name]; !dup {
+					out[rl[i].Name] = cl[j].Name
+				}
+			}
+			i++
+			j++
+		case score[i][j] == score[i+1][j]:
+			i++
+		default:
+			j++
 		}
 	}
 	return out
